@@ -97,7 +97,14 @@ Inductive ev :=
 | Head (h : Z)          (* the node reports head h (Substrate: finalized head) *)
 | Handler (ok : bool)   (* the event handler that is called next returns nil / an error *)
 | Store (ok : bool)     (* the block-store write succeeds / fails *)
-| Crash.                (* the process dies here; it is started again from the block store *)
+| Crash.                (* the process dies here; it is started again from the block store.
+                           That is also what a Go PANIC inside a handler, the node client or the
+                           block store is on this code: none of the three scan loops recovers, so
+                           the panic ends the process.  The runner raises such panics, observes
+                           whether the listener died (then the event is this Crash) or somebody
+                           recovered and the same listener went on (then the call counts as failed:
+                           Handler false / RpcFail / Store false) and the judge holds the trace to
+                           the same specification either way. *)
 
 Inductive out :=
 | OStart (cur : option Z)            (* a lifetime begins: ListenToEvents(ctx, cur) *)
